@@ -273,6 +273,24 @@ func (p *c03) RunCase(ctx *runner.Ctx) runner.CaseResult {
 			op = adapt.Op{Kind: adapt.OpUpdateTable, Table: spec.Name, Chg: []adapt.IndexChange{{Delete: n}, {Create: &d}}}
 		default:
 			op = ixRandomWrite(r, spec.Name, i)
+			if (idx/2)%6 == 5 && r.Intn(8) == 0 {
+				// (one history in six) an index key attribute that is PRESENT with an empty value (string or binary): the item possesses the
+				// attribute (DynamoDB would refuse the write; the library accepts it, so the item belongs to the index)
+				h, rg := mon.Pick(r, ixHashPool), mon.Pick(r, ixRangePool)
+				key := val.Item{"h": ixV("h", h), "r": ixV("r", rg)}
+				attr := mon.Pick(r, []string{"g", "s"})
+				empty := ixV(attr, "x")
+				if empty.K == val.KS || empty.K == val.KB {
+					empty.Str = ""
+					if r.Intn(2) == 0 {
+						op = mon.SetUpdate(spec.Name, key, attr, empty)
+					} else {
+						it := ixItem(h, rg, maybe(r, ixGPool, 25), maybe(r, ixSPool, 25), i)
+						it[attr] = empty
+						op = adapt.Op{Kind: adapt.OpPut, Table: spec.Name, Item: it}
+					}
+				}
+			}
 		}
 		ops = append(ops, op)
 		shape = append(shape, mon.OpFeature(op))
